@@ -432,6 +432,10 @@ func (d *segmentationDescriptor) CanClose(out SegmentationDescriptor) bool {
 			return true
 		}
 	case segCloseDiffPTS:
+		if d.SCTE35() == nil || out.SCTE35() == nil {
+			// without a signal there is no signal time to compare
+			return false
+		}
 		if d.SCTE35().PTS() != out.SCTE35().PTS() {
 			return true
 		}
@@ -463,6 +467,10 @@ func (d *segmentationDescriptor) Equal(c SegmentationDescriptor) bool {
 		return false
 	}
 	if d.TypeID() != c.TypeID() {
+		return false
+	}
+	if d.SCTE35() == nil || c.SCTE35() == nil {
+		// a descriptor that no signal owns has no signal time
 		return false
 	}
 	if !d.SCTE35().HasPTS() || !c.SCTE35().HasPTS() {
